@@ -411,6 +411,164 @@ def _engine_db() -> dict:
                 ef_members=ef_members, structs=structs, consts=consts, bits=bits, digests=digests)
 
 
+# ------------------------------------------------------------------------------------------ text writers
+class _TextSkeleton:
+    """The write skeleton of a text exporter: every `file.write(expr)`, `_write_longstring(file, ext, text, indent=..)` and
+    nested `.export(file, ...)` call in program order with the branches/loops around them.  Parameter and local
+    variable names are rendered as `_` (attribute names, literals, module-level names stay)."""
+
+    def __init__(self, fn: ast.FunctionDef) -> None:
+        self.fn = fn
+        self.file = fn.args.args[1].arg
+        self.locals = {a.arg for a in fn.args.args} | {n.id for n in ast.walk(fn) if isinstance(n, ast.Name) and isinstance(n.ctx, ast.Store)}
+
+    def show(self, node: ast.AST) -> str:
+        import copy
+        loc = self.locals
+
+        class R(ast.NodeTransformer):
+            def visit_Name(self, n: ast.Name) -> ast.AST:   # noqa: N802
+                return ast.Name(id='_', ctx=n.ctx) if n.id in loc else n
+        return ast.unparse(R().visit(copy.deepcopy(node)))
+
+    def uses_file(self, node: ast.AST) -> bool:
+        return any(isinstance(n, ast.Name) and n.id == self.file for n in ast.walk(node))
+
+    def stmt(self, st: ast.stmt) -> list[str]:
+        if isinstance(st, ast.Expr) and isinstance(st.value, ast.Call):
+            c = st.value
+            if isinstance(c.func, ast.Attribute) and isinstance(c.func.value, ast.Name) and c.func.value.id == self.file and c.func.attr == 'write':
+                return ['w:' + self.show(c.args[0])]
+            if isinstance(c.func, ast.Name) and c.func.id == '_write_longstring':
+                kw = {k.arg: k.value for k in c.keywords}
+                if len(c.args) != 3 or set(kw) != {'indent'} or not _is(c.args[0], self.file):
+                    raise TranslateError(f'{self.fn.name}: _write_longstring call not recognised (line {c.lineno})')
+                return [f'ls:{self.show(c.args[1])},{self.show(c.args[2])},{self.show(kw["indent"])}']
+            if isinstance(c.func, ast.Attribute) and c.func.attr == 'export' and self.uses_file(c):
+                return ['export:' + ','.join(self.show(a) for a in c.args)]
+            if self.uses_file(c):
+                raise TranslateError(f'{self.fn.name}: the file is used by {ast.unparse(c)[:60]} (line {c.lineno})')
+            return []
+        if isinstance(st, ast.If):
+            body = [e for x in st.body for e in self.stmt(x)]
+            orelse = [e for x in st.orelse for e in self.stmt(x)]
+            if not body and not orelse:
+                return []
+            return [f'if({self.show(st.test)}){{'] + body + (['}else{'] + orelse if orelse else []) + ['}']
+        if isinstance(st, (ast.For, ast.While)):
+            body = [e for x in st.body for e in self.stmt(x)]
+            if st.orelse:
+                raise TranslateError(f'{self.fn.name}: loop with else')
+            if not body:
+                return []
+            return [f'loop({self.show(st.iter) if isinstance(st, ast.For) else self.show(st.test)}){{'] + body + ['}']
+        if isinstance(st, ast.Try):
+            # `try: float(value) except ValueError: value = ...` of the choices writer: no write inside
+            if any(self.uses_file(x) for x in ast.walk(st)):
+                raise TranslateError(f'{self.fn.name}: try statement touches the file')
+            return []
+        if isinstance(st, ast.Raise):
+            return ['raise']
+        if isinstance(st, (ast.With, ast.FunctionDef)):
+            raise TranslateError(f'{self.fn.name}: {type(st).__name__} statement not supported')
+        if self.uses_file(st):
+            raise TranslateError(f'{self.fn.name}: statement not recognised: {ast.unparse(st)[:80]}')
+        return []
+
+    def run(self) -> list[str]:
+        return [e for st in _body(self.fn) for e in self.stmt(st)]
+
+
+def _method(tree: ast.Module, cls: str, name: str) -> ast.FunctionDef:
+    c = _cls(tree, cls)
+    fns = [n for n in c.body if isinstance(n, ast.FunctionDef) and n.name == name and not any(
+        _is(d, 'overload') for d in n.decorator_list)]
+    if len(fns) != 1:
+        raise TranslateError(f'{cls}.{name} not found')
+    return fns[0]
+
+
+def _only_colons(lit: ast.AST, what: str) -> int:
+    v = _const(lit, str, what)
+    if v.strip(' :') != '' or ':' not in v:
+        raise TranslateError(f'{what}: separator {v!r} is not made of colons and blanks')
+    return v.count(':')
+
+
+def _text_writers(tree: ast.Module) -> dict:
+    """Decisive branches of KVDef.export / EntityDef.export (the model is Fmt/FgdLine.v [line_cfg]) and the write
+    skeletons of KVDef.export, IODef.export and EntityDef.export."""
+    kve = _method(tree, 'KVDef', 'export')
+    ioe = _method(tree, 'IODef', 'export')
+    ente = _method(tree, 'EntityDef', 'export')
+    body = _body(kve)
+    # `default = self.default` ... `if not default and self.type is ValueTypes.BOOL: default = '0'` ... `if default: ... else: ...`
+    dvar = None
+    for st in body:
+        if isinstance(st, ast.Assign) and isinstance(st.targets[0], ast.Name) and _is(st.value, 'self.default'):
+            dvar = st.targets[0].id
+    if dvar is None:
+        raise TranslateError('KVDef.export: `default = self.default` not found')
+    fills = [st for st in body if isinstance(st, ast.If) and any(
+        isinstance(x, ast.Assign) and isinstance(x.targets[0], ast.Name) and x.targets[0].id == dvar for x in st.body)]
+    if not fills:
+        bool_fill = False
+    elif len(fills) == 1 and (_is(fills[0].test, f'not {dvar} and self.type is ValueTypes.BOOL')
+                              or _is(fills[0].test, f'not {dvar} and self._type is ValueTypes.BOOL')
+                              or _is(fills[0].test, f'self.type is ValueTypes.BOOL and not {dvar}')) \
+            and len(fills[0].body) == 1 and _is(fills[0].body[0], f"{dvar} = '0'") and not fills[0].orelse:
+        bool_fill = True
+    else:
+        raise TranslateError('KVDef.export: the BOOL default fill is not recognised: ' + ' ; '.join(ast.unparse(f)[:80] for f in fills))
+    branch = [st for st in body if isinstance(st, ast.If) and _is(st.test, dvar)]
+    if len(branch) != 1 or not branch[0].orelse:
+        raise TranslateError('KVDef.export: `if default: ... else: ...` not found')
+
+    def desc_sep(sts: list[ast.stmt], what: str) -> int:
+        ifs = [x for x in sts if isinstance(x, ast.If) and _is(x.test, 'self.desc')]
+        if len(ifs) != 1 or ifs[0].orelse or len(ifs[0].body) != 1:
+            raise TranslateError(f'KVDef.export: `if self.desc: file.write(sep)` not found {what}')
+        w = ifs[0].body[0]
+        if not (isinstance(w, ast.Expr) and _is_call_method(w.value, 'write') and len(w.value.args) == 1):  # type: ignore[attr-defined]
+            raise TranslateError(f'KVDef.export: separator write not recognised {what}')
+        return _only_colons(w.value.args[0], 'KVDef.export separator ' + what)  # type: ignore[attr-defined]
+    colons_with = desc_sep(branch[0].body, 'after a default')
+    colons_without = desc_sep(branch[0].orelse, 'without a default')
+    # the description itself is written iff non-empty
+    if not any(isinstance(st, ast.If) and _is(st.test, 'self.desc') and len(st.body) == 1 and isinstance(st.body[0], ast.Expr)
+               and isinstance(st.body[0].value, ast.Call) and _is(st.body[0].value.func, '_write_longstring') for st in body):
+        raise TranslateError('KVDef.export: `if self.desc: _write_longstring(...)` not found')
+    # EntityDef.export: when is the @resources block written
+    res_ifs = [st for st in ast.walk(ente) if isinstance(st, ast.If) and any(
+        isinstance(n, ast.Constant) and isinstance(n.value, str) and '@resources' in n.value for x in st.body for n in ast.walk(x))]
+    if len(res_ifs) != 1:
+        raise TranslateError('EntityDef.export: the `if` that writes the @resources block was not found exactly once')
+    t = res_ifs[0].test
+    if not (isinstance(t, ast.BoolOp) and isinstance(t.op, ast.And) and len(t.values) == 2 and any(_is(v, 'custom_syntax') for v in t.values)):
+        raise TranslateError('EntityDef.export: @resources condition is not `custom_syntax and ...`: ' + ast.unparse(t))
+    cond = [v for v in t.values if not _is(v, 'custom_syntax')][0]
+    defined = ('self.resources != ()', '() != self.resources', 'self.resources_defined()', 'not self.resources == ()')
+    nonempty = ('self.resources', 'len(self.resources) > 0', 'len(self.resources) != 0', 'len(self.resources)', 'bool(self.resources)',
+                'self.resources != () and self.resources', 'len(self.resources) >= 1')
+    if any(_is(cond, x) for x in defined):
+        res_defined = True
+    elif any(_is(cond, x) for x in nonempty):
+        res_defined = False
+    else:
+        raise TranslateError('EntityDef.export: @resources condition not recognised: ' + ast.unparse(cond))
+    sk = {'KVDef.export': _TextSkeleton(kve).run(), 'IODef.export': _TextSkeleton(ioe).run(), 'EntityDef.export': _TextSkeleton(ente).run()}
+
+    def has_run(lst: list[str], run: list[str]) -> bool:
+        return any(lst[i:i + len(run)] == run for i in range(len(lst)))
+    # spawnflags keyvalues write no display name, everything else writes `: "display name"`
+    if not has_run(sk['KVDef.export'], ['if(_._type is not ValueTypes.SPAWNFLAGS){', "w:': '", "ls:_,_.disp_name,'\\t'", '}']):
+        raise TranslateError('KVDef.export: `if self._type is not ValueTypes.SPAWNFLAGS: ": " + display name` not recognised')
+    if not has_run(sk['IODef.export'], ['if(_.desc){', "w:' : '", "ls:_,_.desc,'\\t'", '}', "w:'\\n'"]):
+        raise TranslateError('IODef.export: `if self.desc: " : " + description` then newline not recognised')
+    return dict(bool_fill=bool_fill, colons_with_default=colons_with, colons_without_default=colons_without, res_if_defined=res_defined,
+                skeletons=sk)
+
+
 # ------------------------------------------------------------------------------------------ record layouts
 class _Skeleton:
     """The I/O skeleton of one (un)serialiser: the primitive reads/writes in program order with the loops and
@@ -686,6 +844,7 @@ def translate() -> tuple[str, dict]:
     pairs, excl, tok_side = _tokenizer_tables()
     fgd_tree = ast.parse(src_text('fgd.py'))
     wl = _write_longstring(fgd_tree)
+    tw = _text_writers(fgd_tree)
     fe = _fgd_escape(fgd_tree)
     db = _engine_db()
     for op in (wl['loop_op'], wl['nl_op']):
@@ -694,7 +853,7 @@ def translate() -> tuple[str, dict]:
     ef = dict(db['ef_members'])
     lines = [
         '(* GENERATED by translate/c16_fgd.py from srctools/fgd.py, _engine_db.py, tokenizer.py, const.py. Do not edit. *)',
-        'From Coq Require Import List NArith String.', 'From SV Require Import Fmt.LongString.',
+        'From Coq Require Import List NArith String.', 'From SV Require Import Fmt.LongString Fmt.FgdLine.',
         'Import ListNotations.', 'Open Scope string_scope.',
         'Inductive cmp_op := OpGt | OpGe | OpLt | OpLe | OpEq | OpNe.',
         '(* tokenizer.ESCAPES as (symbol, character); characters escape_text() never escapes *)',
@@ -713,6 +872,10 @@ def translate() -> tuple[str, dict]:
         f'Definition ls_off2 : nat := {wl["off2"]}.',
         f'Definition ls_notfound : Z := ({wl["notfound"]})%Z.' if False else f'Definition ls_notfound : nat := {wl["notfound"]}.',
         f'Definition ls_joiner : list N := {_cstr(wl["joiner"])}.',
+        '(* KVDef.export / EntityDef.export: decisive branches of the line writers (Fmt/FgdLine.v) *)',
+        f'Definition gen_line_cfg : FgdLine.line_cfg := {{| FgdLine.colons_before_desc_without_default := {tw["colons_without_default"]}; '
+        f'FgdLine.bool_default_filled := {_b(tw["bool_fill"])}; FgdLine.res_block_if_defined := {_b(tw["res_if_defined"])} |}}.',
+        f'Definition kv_colons_after_default : nat := {tw["colons_with_default"]}.',
         '(* _engine_db tables *)',
         f'Definition value_types_all : list string := {_slist(n for n, _ in db["vt_members"])}.',
         f'Definition value_type_order : list string := {_slist(db["vt_order"])}.',
@@ -740,7 +903,7 @@ def translate() -> tuple[str, dict]:
     ]
     if wl['notfound'] < 0:
         raise TranslateError('not-found comparison value is negative')
-    side = dict(write_longstring=wl, fgd_escape=fe, tokenizer=tok_side, engine_db={k: v for k, v in db.items() if k != 'bits'},
+    side = dict(write_longstring=wl, fgd_escape=fe, text_writers=tw, tokenizer=tok_side, engine_db={k: v for k, v in db.items() if k != 'bits'},
                 bit_ops=db['bits'])
     return '\n'.join(lines), side
 
